@@ -31,9 +31,12 @@ class OptimizerBase(abc.ABC):
 
     def add_clamp(self, clamp: ClampBase) -> None:
         """Adds a clamp to optimization. Raises an exception if it already exists"""
+        # (vertices are looked up where they are now)
+        self.grid.points[:] = self.get_positions()
         self.grid.add_clamp(clamp)
 
     def add_link(self, link: LinkBase) -> None:
+        self.grid.points[:] = self.get_positions()
         self.grid.add_link(link)
 
     def optimize_clamp(self, clamp: ClampBase, method: MinimizationMethodType) -> None:
